@@ -348,7 +348,8 @@ class Standardize(PostProcessor):
             array = dict()
             if overwrite:
                 try:
-                    array = np.load(wfilename)
+                    with np.load(wfilename) as archive:
+                        array = dict(archive)
                 except IOError:
                     pass
             if key is None:
